@@ -1,4 +1,9 @@
-"""C18 - haplotype-block values conserve genomic value and bound progeny (haplo helpers, OHV, OPV, genotype builder)."""
+"""C18 - haplotype-block values conserve genomic value and bound progeny.
+
+Families: helpers (nhaploblk_chrom / haplobin / haplobin_bounds / haplomat, incl. dtype and memory-layout variants), problems
+(OHV in four encodings, OPV, genotype builder; built by from_pgmat_gpmod or by the selection protocols' problem(); models with
+u_misc and several fixed effects), lifecycle (long-lived problem objects changed through setters, in-place writes and copies;
+every evaluation judged on the current public state)."""
 import inspect
 
 import numpy
@@ -15,18 +20,26 @@ CLAUSES = {   # minimum evaluations per run (about a fifth of what a quick run m
     "C18.blockvalue": 10000, "C18.conservation": 5000,
     "C18.ohv": 3000, "C18.ohv.latentfn": 2000, "C18.opv": 1000, "C18.gb": 1000,
     "C18.bound": 3000, "C18.finite": 10000,
+    "C18.state.latentfn": 12000, "C18.state.evalfn": 15000, "C18.state.props": 7000,
 }
 HOOKS_REQUIRED = ["haplobin<-haplomat", "haplobin<-OptimalHaploidValueSelectionProblemMixin._calc_haplomat",
                   "haplobin<-OptimalPopulationValueSelectionProblemMixin._calc_haplomat",
                   "haplobin<-GenotypeBuilderSelectionProblemMixin._calc_haplomat",
-                  "haplobin_bounds<-haplomat", "nhaploblk_chrom<-haplomat"]
+                  "haplobin_bounds<-haplomat", "nhaploblk_chrom<-haplomat", "problem built by a selection protocol"]
 RULE = ("seeded class-based marker layouts: 1-4 chromosomes (non-consecutive labels) of 1-16 markers; position classes even, "
         "clustered (equal-width bins left empty), lattice positions exactly on bin edges, coincident positions (incl. zero-length "
         "chromosomes), single-marker chromosomes, random, offset/rescaled (1e6 offsets, cM scale), unequal (long chromosome with "
         "few markers), mixed; block totals nchr, nchr+1, m-1, m and uniform in between; haplobin also driven with harness-made "
         "apportionments; genotypes 1-4 phases x 1-8 taxa (random, sparse, duplicated taxa, constant); effects 1-3 traits (gaussian, "
         "small integers = exact arithmetic, all-negative, 12 decades of magnitude, zeros); OHV crosses of 1-4 parents with and "
-        "without repeated parents in the four encodings, chunk sizes 1..None; OPV/GB subsets of 1..n taxa.  Non-trivial: >= 2 "
+        "without repeated parents in the four encodings, chunk sizes 1..None; OPV/GB subsets of 1..n taxa; genomic models with 1-3 "
+        "fixed effects, u_misc absent / empty / 1-3 misc random effects, u_a in C, Fortran, strided and negative-stride layouts; genotype "
+        "matrices with optional taxa_grp/vrnt_name/vrnt_xoprob and hostile layouts; 30% of the problems built by the selection "
+        "protocols' problem(); haplomat() also with float32/int64 effects and int64/uint8/bool/float64 genomes; family 'lifecycle': "
+        "long-lived OPV/GB/OHV(4 encodings) objects built by constructor (arbitrary float64/float32/int64 state in hostile layouts) or "
+        "from_pgmat_gpmod, then 2-5 operations out of {state setter same shape / other ploidy+block count, in-place write, obj_wt "
+        "setter, nbestfndr setter, deep/shallow copy then change the copy, re-evaluate}, each followed by latentfn, evalfn and pymoo "
+        "_evaluate (one solution and a population) judged on the object's current public state.  Non-trivial: >= 2 "
         "markers and >= 1 block boundary possible (nblk >= 2); distinct = digest of positions, chromosome sizes, block total, "
         "genotypes and effects.")
 ASSUME = [
@@ -39,6 +52,11 @@ ASSUME = [
     "among the selected taxa; with nbestfndr = 1 this is the OPV of the statement",
     "the order of the block axis of haplomat is not constrained by the statement: any one-to-one placement of the block values is accepted",
     "label values returned by haplobin are not constrained beyond being non-decreasing (gaps in the numbering are accepted)",
+    "block values use the additive marker effects u_a only: fixed effects (beta) and misc random effects (u_misc) belong to no marker",
+    "a problem object's public state is what its getters return now (haplomat / ohvmat / nbestfndr / obj_wt), whether it was assigned "
+    "through a setter or written in place through the returned array; evalfn/_evaluate with the default identity transformation give "
+    "obj_wt * latent vector; results in float32 state are compared with 64*eps32 relative tolerance",
+    "selection protocols' problem() is in-domain for >= 2 taxa and nbestfndr <= nparent*ncross",
 ]
 TRUSTED = ["pbmon.oracle.haploblocks (marker-by-marker sums, mosaic-haplotype enumeration)"]
 
@@ -766,6 +784,24 @@ def case_lifecycle(ctx, c):
                 good_all &= ctx.check("C18.state.evalfn", good, site, "objectives == current obj_wt * oracle latent vector (identity transformation)",
                           after + ("/obj_wt changed" if wt_changed else ""),
                           witness=dict(wx, got=ev, obj_wt=wt), coords=coords)
+                if rep == 1 and good:       # pymoo entry point: one solution and a population of two
+                    site = defsite(pc, "_evaluate")
+                    x2 = draw_x(p)
+                    exp2 = state_oracle(kind, state, x2, nb)
+
+                    def via_pymoo():
+                        o1, o2 = {}, {}
+                        p._evaluate(numpy.asarray(x), o1)
+                        p._evaluate(numpy.stack([numpy.asarray(x), numpy.asarray(x2)]), o2)
+                        return o1.get("F"), o2.get("F")
+                    ok, fs = guarded(ctx, site, after, coords, via_pymoo, wx)
+                    good_all &= ok
+                    if ok:
+                        e2 = eps * max(1.0, float(numpy.abs(wt).max()))
+                        good2 = fs[0] is not None and fs[1] is not None and close(ctx, "state evalfn error", fs[0], wt * exp, e2) \
+                            and close(ctx, "state evalfn error", fs[1], numpy.stack([wt * exp, wt * exp2]), e2)
+                        good_all &= ctx.check("C18.state.evalfn", good2, site, "F of one solution and of a population == obj_wt * oracle latent vectors",
+                                              after + ("/obj_wt changed" if wt_changed else ""), witness=dict(wx, x2=x2, got=fs), coords=coords)
         return good_all
 
     # finding keys name the last operation that changed latent-relevant state (not merely the last operation made)
